@@ -32,7 +32,12 @@ INT_NEAR_MISSES = ['12abc', '1.5', '1e5', '', ' ', '--1', '0x1F', '1,5', 'inf', 
                    '\ufb00', '\u33c4', '\u339d', '\u216b', '\u2177', '\u00b2', '1\u2460', '\u210c', '-\u24d5\u24d5', '\uff26\uff26', '(1)', '1)', 'f f', 'ff.', '+-f']
 
 # texts that are not integers in any radix: compatibility characters that merely LOOK like digits / letters, stray punctuation
-NEVER_INT = ['\ufb00', '\u33c4', '\u339d', '\u216b', '\u2177', '\u00b2', '1\u2460', '\u210c', '-\u24d5\u24d5', '(1)', '1)', 'f f', 'ff.', '+-f', '', ' ', '.', '-', '1,5', '--1', '1 2']
+# an underscore at either end or doubled is not Python's digit grouping either; a radix prefix followed by a sign / a blank / another prefix is no integer text
+UNDERSCORE_MISSES = ['_12', '12_', ' _7 ', '__5', '1.5e3_', '_-0.25', '_', '1__0', '-_5', '5_e3', '_1_', '12 _', '_ 12']
+PREFIX_MISSES = ['0x-5', '0x+1f', '0x 7', '0X -1', '0x--1', '0b-1', '0o+7', '-0x-5', '0x 0x10', '0b 1', '0o 7']
+NEAR_MISSES += UNDERSCORE_MISSES + PREFIX_MISSES
+INT_NEAR_MISSES += UNDERSCORE_MISSES + PREFIX_MISSES
+NEVER_INT = [t for t in UNDERSCORE_MISSES if t != '5_e3'] + PREFIX_MISSES + ['\ufb00', '\u33c4', '\u339d', '\u216b', '\u2177', '\u00b2', '1\u2460', '\u210c', '-\u24d5\u24d5', '(1)', '1)', 'f f', 'ff.', '+-f', '', ' ', '.', '-', '1,5', '--1', '1 2']
 _m = {}
 # an integral number as the library hands it to a script (mathFloor / mathCeil / mathRound / numberParseInt / jsonParse results need not be the
 # same host type as a literal): it must print and re-parse like the literal of the same value
@@ -269,7 +274,7 @@ def run_shard(ctx, spec):
         return
     if spec['kind'] == 'nearmiss':
         for s in sorted(set(NEAR_MISSES + INT_NEAR_MISSES)):
-            for radix in (None, 2.0, 16.0, 36):
+            for radix in (None, 2.0, 8.0, 10.0, 16.0, 36):
                 try:
                     check_parse(s, radix)
                 except Violation as v:
